@@ -70,7 +70,7 @@ func history(s stepper, rounds, nIn int) {
 func vc13(c tNetCfg, hist, seq int) {
 	t := tBuild(c)
 	vAssume(t.allReachable())
-	which := vChoice("solver", 3)
+	which := vChoice("solver", 4)
 	switch which {
 	case 0: // standard network
 		history(t.net, hist, c.nIn)
@@ -88,6 +88,17 @@ func vc13(c tNetCfg, hist, seq int) {
 		ok, err := a.Flush()
 		vAssert(ok && err == nil, "fast: Flush succeeds")
 		sameRun(a, b, seq, c.nIn, "fast solver after flush")
+	case 3: // fast solver: recursive activation before the flush, forward stepping / relaxation after it
+		a, err := t.net.FastNetworkSolver()
+		b, _ := t.net.FastNetworkSolver()
+		if err != nil {
+			return
+		}
+		_ = a.LoadSensors(symInputs(c.nIn))
+		_, _ = a.RecursiveSteps()
+		ok, err := a.Flush()
+		vAssert(ok && err == nil, "fast: Flush succeeds")
+		sameRun(a, b, seq, c.nIn, "fast solver after flush (recursive history, forward stepping after)")
 	case 2: // fast solver, relaxation and recursive activation in the history
 		a, err := t.net.FastNetworkSolver()
 		b, _ := t.net.FastNetworkSolver()
